@@ -20,9 +20,10 @@ import NV.Driver.Ecs
 import NV.Driver.Local
 import NV.Driver.Manager
 import NV.Driver.Router
+import NV.Driver.HostsRefresh
 namespace NV
 
-def steppers : List (List String → Option String) := [stepCore, stepCap, stepRaceSoak, stepListen, stepUpfault, Disc.stepDiscovery, Config.stepConfig, stepCache, stepFwd, stepProf, stepTTL, stepFS, stepClientInfo, stepEcs, LocalDrv.stepLocal, stepManager, stepRouter]
+def steppers : List (List String → Option String) := [stepCore, stepCap, stepRaceSoak, stepListen, stepUpfault, Disc.stepDiscovery, Config.stepConfig, stepCache, stepFwd, stepProf, stepTTL, stepFS, stepClientInfo, stepEcs, LocalDrv.stepLocal, stepManager, stepRouter, HostsRefreshDrv.stepHostsRefresh]
 
 def step (line : String) : String :=
   let toks := line.splitOn " "
